@@ -32,6 +32,7 @@ type CertSpec struct {
 	UnknownEKU     bool
 	NotBefore      int64 // unix seconds
 	NotAfter       int64
+	DNS            []string // DNS SANs
 }
 
 var (
@@ -87,6 +88,7 @@ func MintDER(s CertSpec) ([]byte, error) {
 		IsCA:                  s.IsCA,
 		KeyUsage:              s.KeyUsage,
 		ExtKeyUsage:           s.EKU,
+		DNSNames:              s.DNS,
 	}
 	if s.BCValid && s.MaxPathLen >= 0 {
 		tmpl.MaxPathLen = s.MaxPathLen
